@@ -75,6 +75,10 @@ type codeSlot struct {
 	instr     ssa.Instruction
 }
 
+// provRes: while a header-writing helper is analysed for one of its calls, the result of the
+// conditional constant propagation for that call (which blocks and phi inputs can run).
+var provRes *sccpResult
+
 // provenance describes v as "field X", "len(field X)", "field X.UnixNano()", "const c",
 // "flag F ? a : b"; plain=false if anything else is involved.
 func provenance(v ssa.Value, recv ssa.Value) (string, bool) {
@@ -144,6 +148,38 @@ func provenance(v ssa.Value, recv ssa.Value) (string, bool) {
 		}
 		return "result of " + shortName(CalleeName(&x.Call)), false
 	case *ssa.Phi:
+		// inside a helper analysed for one call (constant arguments): only the ways in that can run
+		if provRes != nil && provRes.fn == x.Parent() {
+			var live []int
+			for i := range x.Edges {
+				if provRes.EdgeExecutable(x.Block().Preds[i], x.Block()) {
+					live = append(live, i)
+				}
+			}
+			if len(live) == 1 {
+				return provenance(x.Edges[live[0]], recv)
+			}
+			if len(live) == 2 && len(x.Edges) > 2 {
+				// the test that tells the two remaining ways apart
+				for _, i := range live {
+					for b := x.Block().Preds[i]; b != nil; b = b.Idom() {
+						iff, ok := b.Instrs[len(b.Instrs)-1].(*ssa.If)
+						if !ok {
+							continue
+						}
+						k0 := branchOf(iff, x.Block().Preds[live[0]], x.Block())
+						k1 := branchOf(iff, x.Block().Preds[live[1]], x.Block())
+						if k0 >= 0 && k1 >= 0 && k0 != k1 {
+							tv, fv := x.Edges[live[0]], x.Edges[live[1]]
+							if k0 == 1 {
+								tv, fv = fv, tv
+							}
+							return selectForm(iff.Cond, tv, fv, recv)
+						}
+					}
+				}
+			}
+		}
 		// constants selected by a flag of the record: "select by F: true -> A, false -> B"
 		if len(x.Edges) == 2 {
 			if idom := x.Block().Idom(); idom != nil {
@@ -223,11 +259,64 @@ func paramsPlain(c *ssa.Function, call *ssa.Call, recv ssa.Value) bool {
 
 // headerWrites extracts the ordered writes to the header buffer of a message builder.
 func headerWrites(p *Prog, fn *ssa.Function) (buf ssa.Value, slots []codeSlot, problems []string) {
+	return headerWritesIn(p, fn, nil, nil, nil, 0)
+}
+
+// recordParam: the parameter of fn that is the record (a *DataRecord), or its first parameter.
+func recordParam(fn *ssa.Function) ssa.Value {
+	for _, prm := range fn.Params {
+		if typeName(prm.Type()) == "DataRecord" {
+			return prm
+		}
+	}
+	if len(fn.Params) > 0 {
+		return fn.Params[0]
+	}
+	return nil
+}
+
+// headerWritesIn: the writes fn makes to the header buffer, in order.  In a helper (bufPrm set) the
+// buffer is that parameter, only the blocks that can run for this call (res) count, and values are
+// described relative to the helper's own record parameter.  Calls of module helpers that are
+// handed the buffer are expanded in place, each analysed for the constants that call passes.
+func headerWritesIn(p *Prog, fn *ssa.Function, bufPrm ssa.Value, res *sccpResult, _ ssa.Value, depth int) (buf ssa.Value, slots []codeSlot, problems []string) {
 	sizes := types.SizesFor("gc", "amd64")
+	rec := recordParam(fn)
 	var writes []*ssa.Call
+	helperAt := map[*ssa.Call]int{} // helper call -> index of the buffer among its arguments
+	isBuf := func(v ssa.Value) bool {
+		if bufPrm != nil {
+			return v == bufPrm
+		}
+		return true
+	}
 	Instrs(fn, func(in ssa.Instruction) {
-		if call, ok := in.(*ssa.Call); ok && IsCallTo(in, "(*bytes.Buffer).Write") {
-			writes = append(writes, call)
+		call, ok := in.(*ssa.Call)
+		if !ok || (res != nil && !res.Executable(in)) {
+			return
+		}
+		if IsCallTo(in, "(*bytes.Buffer).Write") {
+			if a := methodArgs(&call.Call); len(a) > 0 && isBuf(a[0]) {
+				writes = append(writes, call)
+			}
+			return
+		}
+		if g := call.Call.StaticCallee(); g != nil && isModuleFn(g) && g.Blocks != nil && depth < 2 && len(g.Params) == len(call.Call.Args) {
+			for k, a := range call.Call.Args {
+				if strings.HasSuffix(a.Type().String(), "bytes.Buffer") && isBuf(a) {
+					// only helpers that write to it
+					has := false
+					Instrs(g, func(y ssa.Instruction) {
+						if IsCallTo(y, "(*bytes.Buffer).Write") {
+							has = true
+						}
+					})
+					if has {
+						writes = append(writes, call)
+						helperAt[call] = k
+					}
+				}
+			}
 		}
 	})
 	if len(writes) == 0 {
@@ -244,7 +333,7 @@ func headerWrites(p *Prog, fn *ssa.Function) (buf ssa.Value, slots []codeSlot, p
 					L.problems = append(L.problems, "a variable-length part is appended to the header")
 					continue
 				}
-				prov, plain := provenance(s.val, fn.Params[0])
+				prov, plain := provenance(s.val, rec)
 				slots = append(slots, codeSlot{off, s.size, s.float, prov, plain, s.instr})
 				off += s.size
 			}
@@ -252,10 +341,63 @@ func headerWrites(p *Prog, fn *ssa.Function) (buf ssa.Value, slots []codeSlot, p
 		}
 		return nil, nil, []string{"no write to a bytes.Buffer found"}
 	}
-	buf = methodArgs(&writes[0].Call)[0]
+	if k, isHelper := helperAt[writes[0]]; isHelper {
+		buf = writes[0].Call.Args[k]
+	} else {
+		buf = methodArgs(&writes[0].Call)[0]
+	}
 	off := 0
 	var prevAnchor ssa.Instruction
 	for i, w := range writes {
+		if k, isHelper := helperAt[w]; isHelper {
+			if w.Call.Args[k] != buf {
+				problems = append(problems, fmt.Sprintf("write #%d goes to a different buffer", i+1))
+				continue
+			}
+			if prevAnchor != nil && !InstrDominates(prevAnchor, w) {
+				problems = append(problems, fmt.Sprintf("write #%d is not on every path after write #%d (layout depends on the path)", i+1, i))
+			}
+			prevAnchor = w
+			g := w.Call.StaticCallee()
+			env := map[ssa.Value]lat{}
+			for j, a := range w.Call.Args {
+				if c, isC := a.(*ssa.Const); isC && c.Value != nil {
+					if l := (&sccpResult{}).Get(c); l.isConst() {
+						env[g.Params[j]] = l
+					}
+				} else if res != nil {
+					if l := res.Get(a); l.isConst() && l.c != nil {
+						env[g.Params[j]] = l
+					}
+				}
+			}
+			gres := sccp(g, env)
+			saved := provRes
+			provRes = gres
+			_, sub, subProblems := headerWritesIn(p, g, g.Params[k], gres, nil, depth+1)
+			provRes = saved
+			// the helper must be given this function's record
+			grec := recordParam(g)
+			sameRec := false
+			for j, a := range w.Call.Args {
+				if g.Params[j] == grec && a == rec {
+					sameRec = true
+				}
+			}
+			if !sameRec && len(sub) > 0 {
+				problems = append(problems, fmt.Sprintf("the header-writing helper %s is not handed this message's record", FuncName(g)))
+			}
+			problems = append(problems, subProblems...)
+			for _, sl := range sub {
+				sl.off += off
+				sl.instr = w
+				slots = append(slots, sl)
+			}
+			if len(sub) > 0 {
+				off = slots[len(slots)-1].off + slots[len(slots)-1].size
+			}
+			continue
+		}
 		wargs := methodArgs(&w.Call)
 		if len(wargs) < 2 || wargs[0] != buf {
 			problems = append(problems, fmt.Sprintf("write #%d goes to a different buffer", i+1))
@@ -286,7 +428,7 @@ func headerWrites(p *Prog, fn *ssa.Function) (buf ssa.Value, slots []codeSlot, p
 						if b, okb := pt.Underlying().(*types.Basic); okb && b.Info()&types.IsFloat != 0 {
 							isFloat = true
 						}
-						prov, plain := provenance(g2.Call.Args[0], fn.Params[0])
+						prov, plain := provenance(g2.Call.Args[0], rec)
 						slots = append(slots, codeSlot{off, size, isFloat, prov, plain, w})
 						off += size
 					}
@@ -324,7 +466,7 @@ func headerWrites(p *Prog, fn *ssa.Function) (buf ssa.Value, slots []codeSlot, p
 			isFloat = true
 		}
 		for _, v := range vals {
-			prov, plain := provenance(v, fn.Params[0])
+			prov, plain := provenance(v, rec)
 			slots = append(slots, codeSlot{off, size, isFloat, prov, plain, w})
 			off += size
 		}
@@ -581,6 +723,26 @@ func headerPuts(p *Prog, fn *ssa.Function) (buf ssa.Value, slots []codeSlot, pro
 	if buf == nil {
 		return nil, nil, nil
 	}
+	// a buffer that starts as a copy of a package-level array (preset bytes) and is patched byte by
+	// byte: the bytes the Put calls do not write are not extracted
+	root := buf
+	if sl, ok := root.(*ssa.Slice); ok {
+		root = sl.X
+	}
+	if g, ok := root.(*ssa.Global); ok {
+		problems = append(problems, "the header is the package-level array "+g.Name()+": its preset bytes are at offsets not written here (computed offset form)")
+	}
+	if al, ok := root.(*ssa.Alloc); ok {
+		for _, ref := range *al.Referrers() {
+			if st, ok := ref.(*ssa.Store); ok && st.Addr == ssa.Value(al) {
+				if ld, ok := st.Val.(*ssa.UnOp); ok {
+					if g, ok := ld.X.(*ssa.Global); ok {
+						problems = append(problems, "the header starts as a copy of the template "+g.Name()+": its preset bytes are at offsets not written here (computed offset form)")
+					}
+				}
+			}
+		}
+	}
 	sort.Slice(slots, func(i, j int) bool { return slots[i].off < slots[j].off })
 	return buf, slots, problems
 }
@@ -664,10 +826,35 @@ func runC14(p *Prog, r *Report) {
 						fmt.Sprintf("the code writes %d bytes (float=%v) at offset %d; the document says %d bytes (float=%v) there", sl.size, sl.float, sl.off, d.size, d.float))
 				}
 			}
+			c14Frames(p, r, fn, buf, b.name, b.payload, b.view)
 			continue
 		}
 		if len(problems) == 0 {
 			r.OK("C14.R1", b.name+": header construction", p.Pos(fn.Pos()), "one straight sequence of scalar writes into one buffer")
+		}
+		// several consecutive writes of zero constants that together fill one documented slot are
+		// that slot written as zero (a 16-bit zero is two zero bytes in any byte order)
+		for _, d := range b.table {
+			for i := 0; i < len(slots); i++ {
+				if slots[i].off != d.off || slots[i].size >= d.size {
+					continue
+				}
+				end, j := slots[i].off, i
+				allZero := true
+				for j < len(slots) && end < d.off+d.size {
+					if slots[j].off != end || slots[j].prov != "const 0" || slots[j].float {
+						allZero = false
+						break
+					}
+					end += slots[j].size
+					j++
+				}
+				if allZero && end == d.off+d.size && j > i+1 {
+					merged := slots[i]
+					merged.size = d.size
+					slots = append(append(append([]codeSlot{}, slots[:i]...), merged), slots[j:]...)
+				}
+			}
 		}
 		// R1 layout
 		total := 0
@@ -738,7 +925,29 @@ func c14Frames(p *Prog, r *Report, fn *ssa.Function, buf ssa.Value, name, payloa
 		}
 	}
 	if sliceMode {
-		r.OK("C14.R3", name+": header buffer is allocated in this call", p.Pos(fn.Pos()), "make([]byte, 0, n) per message, grown by append")
+		// where the bytes live: made here, a local array (a copy), or something shared
+		root := buf
+		for {
+			if sl, ok := root.(*ssa.Slice); ok {
+				root = sl.X
+				continue
+			}
+			if c, ok := root.(*ssa.Call); ok {
+				if b, isB := c.Call.Value.(*ssa.Builtin); isB && b.Name() == "append" {
+					root = c.Call.Args[0]
+					continue
+				}
+			}
+			break
+		}
+		switch x := root.(type) {
+		case *ssa.Global:
+			r.Bad("C14.R3", name+": header buffer is allocated in this call", p.Pos(fn.Pos()), "the header bytes are the package-level array "+x.Name()+" itself, shared by every message: a message still queued for sending has its header overwritten by the next record (channel, lengths, time and data type of another record)")
+		case *ssa.MakeSlice, *ssa.Alloc:
+			r.OK("C14.R3", name+": header buffer is allocated in this call", p.Pos(fn.Pos()), "made (or copied into a local array) per message")
+		default:
+			r.OK("C14.R3", name+": header buffer is allocated in this call", p.Pos(fn.Pos()), "make([]byte, 0, n) per message, grown by append")
+		}
 		bad := ""
 		for _, ref := range *buf.Referrers() {
 			switch x := ref.(type) {
@@ -747,6 +956,27 @@ func c14Frames(p *Prog, r *Report, fn *ssa.Function, buf ssa.Value, name, payloa
 					bad = p.InstrPos(x)
 				}
 			case *ssa.DebugRef:
+			case *ssa.IndexAddr:
+				// a single byte of the header set in place
+				for _, r2 := range *x.Referrers() {
+					if _, isSt := r2.(*ssa.Store); !isSt {
+						if _, isDbg := r2.(*ssa.DebugRef); !isDbg {
+							bad = p.InstrPos(x)
+						}
+					}
+				}
+			case *ssa.Slice:
+				// a window of the header used only as the destination of a fixed-width put
+				for _, r2 := range *x.Referrers() {
+					c2, isCall := r2.(*ssa.Call)
+					if isCall && c2.Call.StaticCallee() != nil && strings.HasPrefix(c2.Call.StaticCallee().Name(), "PutUint") && strings.Contains(CalleeName(&c2.Call), "encoding/binary") {
+						continue
+					}
+					if _, isDbg := r2.(*ssa.DebugRef); isDbg {
+						continue
+					}
+					bad = p.InstrPos(x)
+				}
 			default:
 				if in, ok := ref.(ssa.Instruction); ok {
 					bad = p.InstrPos(in)
@@ -757,8 +987,8 @@ func c14Frames(p *Prog, r *Report, fn *ssa.Function, buf ssa.Value, name, payloa
 	}
 	alloc, isAlloc := buf.(*ssa.Alloc)
 	if !sliceMode {
-	r.Check(isAlloc && alloc.Heap, "C14.R3", name+": header buffer is allocated in this call", p.Pos(fn.Pos()), "new(bytes.Buffer) per message",
-		"the header buffer is not a fresh allocation of this call (pooled / shared buffers are overwritten while the previous message is still queued)")
+		r.Check(isAlloc && alloc.Heap, "C14.R3", name+": header buffer is allocated in this call", p.Pos(fn.Pos()), "new(bytes.Buffer) per message",
+			"the header buffer is not a fresh allocation of this call (pooled / shared buffers are overwritten while the previous message is still queued)")
 	}
 	// and used for nothing but Write / Bytes
 	if buf != nil && !sliceMode {
@@ -775,6 +1005,33 @@ func c14Frames(p *Prog, r *Report, fn *ssa.Function, buf ssa.Value, name, payloa
 			}
 			if _, isDbg := in.(*ssa.DebugRef); isDbg {
 				continue
+			}
+			// handed to a module helper that only writes to it
+			if call, isCall := in.(*ssa.Call); isCall {
+				if g := call.Call.StaticCallee(); g != nil && isModuleFn(g) && g.Blocks != nil && len(g.Params) == len(call.Call.Args) {
+					onlyWrites := true
+					for k, a := range call.Call.Args {
+						if a != buf {
+							continue
+						}
+						for _, r2 := range *g.Params[k].Referrers() {
+							i2, ok := r2.(ssa.Instruction)
+							if !ok {
+								continue
+							}
+							if _, isDbg := i2.(*ssa.DebugRef); isDbg {
+								continue
+							}
+							if _, isDefer := i2.(*ssa.Defer); !isDefer && IsCallTo(i2, "(*bytes.Buffer).Write") {
+								continue
+							}
+							onlyWrites = false
+						}
+					}
+					if onlyWrites {
+						continue
+					}
+				}
 			}
 			// a method value of Write / Bytes that is only called (put := header.Write; put(x))
 			if mc, isMC := in.(*ssa.MakeClosure); isMC {
@@ -826,13 +1083,13 @@ func c14Frames(p *Prog, r *Report, fn *ssa.Function, buf ssa.Value, name, payloa
 						if !ok {
 							continue
 						}
+						if k == 0 && sliceMode && st.Val == buf {
+							okHdr = true
+							continue
+						}
 						call, isCall := st.Val.(*ssa.Call)
 						if !isCall {
 							why = "a frame is not produced by a byte-view call"
-							continue
-						}
-						if k == 0 && sliceMode && st.Val == buf {
-							okHdr = true
 							continue
 						}
 						if k == 0 && IsCallTo(call, "(*bytes.Buffer).Bytes") && call.Call.Args[0] == buf {
@@ -985,6 +1242,94 @@ func c14R4(p *Prog, r *Report) {
 			r.Check(perRecord && oneList, "C14.R4", "one socket message per record", p.InstrPos(in), "the send runs once per record of the batch with that record's two frames",
 				"the send is not made once per record with exactly that record's frames (batched outside the per-record loop, or several part lists in one call): the records of a batch arrive as one multi-part message, so only the first carries its channel prefix at the front and subscribers cannot tell the records apart")
 		})
+	}
+	// the same message sent frame by frame by a module helper: helper(socket, converter(record))
+	// whose loop over the frames sends every frame, all but the last flagged "more follows"
+	if !okSend {
+		for _, a := range pubFns {
+			Instrs(a, func(in ssa.Instruction) {
+				call, ok := in.(*ssa.Call)
+				if !ok || call.Call.StaticCallee() == nil || !isModuleFn(call.Call.StaticCallee()) || call.Call.StaticCallee().Blocks == nil {
+					return
+				}
+				h := call.Call.StaticCallee()
+				k := -1
+				for j, arg := range call.Call.Args {
+					if c2, isCall := arg.(*ssa.Call); isCall && isConverterCall(c2) {
+						k = j
+					}
+				}
+				if k < 0 || len(h.Params) != len(call.Call.Args) {
+					return
+				}
+				r.Fn(FuncName(h))
+				why := "no loop over the frames that sends each of them"
+				good := false
+				for _, l := range RangeLoops(h) {
+					if l.Over != ssa.Value(h.Params[k]) {
+						continue
+					}
+					Instrs(h, func(x ssa.Instruction) {
+						sc := CallOf(x)
+						if sc == nil || !(strings.HasSuffix(CalleeName(sc), ".SendBytes") || strings.HasSuffix(CalleeName(sc), ".Send")) || !l.Contains(x.Block()) {
+							return
+						}
+						if !l.EveryIteration(x.Block()) {
+							why = "a frame can be skipped (the send at " + p.InstrPos(x) + " does not run for every frame): a skipped last frame leaves the message unterminated, and the next record's frames are appended to it"
+							return
+						}
+						if !l.IsElem(sc.Args[len(sc.Args)-2]) {
+							why = "what is sent at " + p.InstrPos(x) + " is not the current frame"
+							return
+						}
+						// flags: "more" except on the last frame
+						ph, isPhi := sc.Args[len(sc.Args)-1].(*ssa.Phi)
+						if !isPhi || len(ph.Edges) != 2 {
+							why = "the flags of the send at " + p.InstrPos(x) + " are not 'more follows' / 'last' chosen per frame"
+							return
+						}
+						okFlags := false
+						for i, e := range ph.Edges {
+							if z, isC := constInt(stripConv(e)); isC && z == 0 {
+								// the zero edge is taken when index == len-1
+								pred := ph.Block().Preds[i]
+								c := NewPolyCtx(h)
+								for _, ct := range append(controllingIfs(pred), ctrlOfEdge(pred, ph.Block())...) {
+									bo, isB := ct.If.Cond.(*ssa.BinOp)
+									if !isB || bo.Op != token.EQL || ct.Branch != 0 {
+										continue
+									}
+									d := c.Of(bo.X).Sub(c.Of(bo.Y))
+									want := c.Of(l.Idx).Sub(c.lenOf(h.Params[k]).Sub(polyConst(1)))
+									if d.Equal(want) || d.Equal(want.Neg()) {
+										okFlags = true
+									}
+								}
+							}
+						}
+						if !okFlags {
+							why = "the send at " + p.InstrPos(x) + " does not mark exactly the last frame as the end of the message"
+							return
+						}
+						good = true
+					})
+				}
+				perRecord := false
+				for _, l := range RangeLoops(a) {
+					if l.Contains(in.Block()) && l.EveryIteration(in.Block()) {
+						perRecord = true
+					}
+				}
+				if good {
+					okSend = true
+					r.Check(perRecord, "C14.R4", "one socket message per record", p.InstrPos(in), "the frame-by-frame sender "+FuncName(h)+" runs once per record of the batch with that record's frames",
+						"the send is not made once per record with exactly that record's frames")
+				} else {
+					r.Bad("C14.R4", "one socket message per record", p.InstrPos(in), "the frame-by-frame sender "+FuncName(h)+" does not send the converter's frames as one complete message: "+why)
+					okSend = true
+				}
+			})
+		}
 	}
 	r.Check(okSend, "C14.R4", "the publishing goroutine sends the converter's result", p.Pos(ss.Pos()), "SendMessage(converter(record))", "what is sent on the socket is not (only) the converter's result")
 	// call sites pair port and builder
